@@ -110,7 +110,7 @@ func runPlan(p *plan) []*Obs {
 	}()
 	// every C14 deployment is configured through the real file loader; half of them leave max_message_size at 0
 	// ("use the default"), a valid spelling of the same configuration
-	s, err := stack.Start(stack.Opts{Engine: p.engine, Balancer: "priority", EPs: eps, ModelDiscovery: false, Load: true, Mutate: func(cfg *config.Config) {
+	s, err := stack.Start(stack.Opts{Vary: stack.VaryFor("c14", p.types, p.enabled, p.engine, len(p.reqs)), Engine: p.engine, Balancer: "priority", EPs: eps, ModelDiscovery: false, Load: true, Mutate: func(cfg *config.Config) {
 		cfg.Translators.Anthropic.Enabled = true
 		cfg.Translators.Anthropic.PassthroughEnabled = p.enabled
 		if (len(p.types)+len(p.reqs))%2 == 0 {
